@@ -157,6 +157,9 @@ pub fn op_name(op: AtomicOp) -> &'static str {
         AtomicOp::FetchXor => "fetch_xor",
         AtomicOp::FetchAdd => "fetch_add",
         AtomicOp::FetchSub => "fetch_sub",
+        AtomicOp::FetchNand => "fetch_nand",
+        AtomicOp::FetchMax => "fetch_max",
+        AtomicOp::FetchMin => "fetch_min",
         AtomicOp::CompareExchange => "compare_exchange",
     }
 }
